@@ -334,6 +334,67 @@ def check(ctx):
     if n3 < 8:
         raise AnalysisError('C07.R3 analysed only %d classes' % n3)
 
+    # ---- R6: the unknown item is framed like the known one.  In the token paths (E1, sa/protocol.py) of every decoder that skips an unknown alternative / addition by
+    #      its open-type length (OPENSKIP), what is consumed *before* the open type on the unknown path equals what is consumed before it on the known path (OPEN)
+    #      in the same context and under the same configuration: the encoder of the newer version wrote one framing, whichever alternative it chose.
+    ctx.rule('C07.R6', 'token paths: the unknown alternative / addition is reached through the same framing (alignment, index, length) as the known one')
+
+
+    def prefixes(paths, acc):
+        """acc: list of (context, kind, prefix tokens) for OPEN / OPENSKIP occurrences, recursively through loop bodies"""
+        for p in paths:
+            for k, t in enumerate(p):
+                if t and t[0] in ('OPEN', 'OPENSKIP'):
+                    acc.append((t[0], tuple(protocol.strip_uid(x) for x in p[:k])))
+                if t and t[0] in ('LOOP', 'CHUNKS', 'WHILE') and len(t) > 1:
+                    sub = []
+                    prefixes(t[1], sub)
+                    pre = tuple(protocol.strip_uid(x) for x in p[:k])
+                    acc.extend((kind, pre + ('LOOP',) + q) for kind, q in sub)
+    n6 = 0
+    for codec, cn, meth in (('per', 'Choice', 'decode_additions'), ('uper', 'Choice', 'decode_additions'), ('per', 'MembersType', 'decode_additions'),
+                            ('uper', 'MembersType', 'decode_additions'), ('oer', 'Choice', 'decode'), ('oer', 'MembersType', 'decode_additions')):
+        m6 = model.mod(RELS.get(codec, 'asn1tools/codecs/%s.py' % codec))
+        c6 = m6.classes.get(cn)
+        if c6 is None:
+            # uper inherits the PER class when it does not define its own
+            c6 = model.mod(RELS['per']).classes.get(cn) if codec == 'uper' else None
+            if c6 is None:
+                raise AnalysisError('%s.%s vanished' % (codec, cn))
+            if codec == 'uper':
+                continue       # same object as per: decided there
+        r6 = c6.find_method(meth)
+        if r6 is None:
+            raise AnalysisError('%s.%s.%s vanished' % (codec, cn, meth))
+        try:
+            atoms6, out6 = protocol.token_paths(c6, model, meth, 'dec')
+        except (AnalysisError, protocol.Abort) as e:
+            ctx.instance('C07.R6', '%s.%s.%s' % (codec, cn, meth), 'undecided', str(e)[:120], nontrivial=False, node=r6[1], file=m6.rel)
+            continue
+        bad6 = None
+        seen_skip = False
+        for asg, P in out6.items():
+            acc = []
+            prefixes(P, acc)
+            known = {q for kind, q in acc if kind == 'OPEN'}
+            for kind, q in acc:
+                if kind != 'OPENSKIP':
+                    continue
+                seen_skip = True
+                if known and q not in known and bad6 is None:
+                    bad6 = (dict(asg), q, sorted(known))
+        n6 += 1
+        verdict = 'VIOLATION' if bad6 else ('same framing' if seen_skip else 'undecided')
+        ctx.instance('C07.R6', '%s.%s.%s' % (codec, cn, meth), verdict, '' if seen_skip else 'no skip-by-length path found in the token paths', nontrivial=seen_skip, node=r6[1], file=m6.rel)
+        if bad6:
+            ctx.violation('C07.R6', m6.rel, r6[1], '%s::%s.%s' % (m6.rel, cn, meth),
+                          'under %s the unknown item is skipped after consuming [%s] while a known one is decoded after [%s]: the newer encoder wrote the second framing '
+                          '(alignment before the open-type length in aligned PER), so the skip starts at the wrong bit and everything that follows is misread'
+                          % (bad6[0] or 'every configuration', ' '.join(protocol.show_path((t,)) if isinstance(t, tuple) else t for t in bad6[1]) or 'nothing',
+                             ' | '.join(' '.join(protocol.show_path((t,)) if isinstance(t, tuple) else t for t in k) for k in bad6[2])), stmt='framing of the unknown item')
+    if n6 < 4:
+        raise AnalysisError('C07.R6 examined only %d decoders' % n6)
+
     # ---- R4
     f = ber.classes['MembersType'].methods['decode_content']
     v = sem.View(f)
@@ -462,3 +523,20 @@ MUTANTS.append(dict(name='BER CHOICE: an OPTIONAL member with an unknown tag rep
         elif self.optional or self.has_default():
             return TAG_MISMATCH, offset
         elif self.has_extension_marker:""", expect='C07.R1'))
+
+MUTANTS.append(dict(name='aligned PER CHOICE: an unknown extension alternative is skipped without the alignment before the open-type length', file='asn1tools/codecs/per.py',
+                    old="""        if index in self.additions_index_to_member:
+            addition = self.additions_index_to_member[index]
+        else:
+            addition = None
+
+        # Open type decoding.
+        decoder.align()""", new="""        if index in self.additions_index_to_member:
+            addition = self.additions_index_to_member[index]
+        else:
+            decoder.skip_bits(8 * decoder.read_length_determinant())
+
+            return (None, None)
+
+        # Open type decoding.
+        decoder.align()""", expect='C07.R6'))
